@@ -92,6 +92,8 @@ struct W {
     /// indices whose flag is deliberately not read (a read extends the entry's TTL and would hide a lapse)
     unread: std::collections::HashSet<u32>,
     leave_next: bool,
+    /// entry point of the next claim on a library contract (None = the trace's default)
+    entry: Option<bool>,
     rng: Rng,
 }
 
@@ -107,7 +109,7 @@ impl W {
             e.ledger().with_mut(|l| { l.sequence_number = 7; l.min_temp_entry_ttl = 1; l.min_persistent_entry_ttl = 100; l.max_entry_ttl = 520_000; });
         }
         W { e, hk, reg: HashMap::new(), digs: vec![], tab: HashMap::new(), ltab: vec![], lset: HashMap::new(), addrs: vec![],
-            strees: vec![], itrees: vec![], items: vec![], unread: Default::default(), leave_next: false, rng }
+            strees: vec![], itrees: vec![], items: vec![], unread: Default::default(), leave_next: false, entry: None, rng }
     }
     fn id(&mut self, d: Dg) -> usize {
         if let Some(&k) = self.reg.get(&d) { return k; }
@@ -319,6 +321,9 @@ fn flag<E1, E2>(i: u32, r: Result<Result<bool, E1>, E2>) -> String {
     match r { Ok(Ok(v)) => pair(&n(i as u64), &b(v)), _ => pair(&n(i as u64 + (1u64 << 40)), &b(true)) }
 }
 
+/// a digest that differs from `d` only in its last byte (last bit half of the time)
+fn near(mut d: Dg) -> Dg { d[31] ^= 1; d }
+
 const EMPTY_OBS: &str = "(ob None [] [])";
 
 fn emit_verify(w: &mut W, out: &mut Out, lib: &Address, sorted: bool, c: &VCall) {
@@ -347,6 +352,10 @@ fn corruptions(w: &mut W, sorted: bool, root: Dg, q: &NodeInfo, all: &[NodeInfo]
     let mk = |label: &str, p: std::vec::Vec<Dg>, r: Dg, v: Dg, i: u32| VCall { label: label.into(), p, r, v, i };
     // value
     cs.push(mk("leaf-random", q.proof.clone(), root, w.rand_digest(), idx));
+    // near misses: the true digest with only its last bit changed
+    cs.push(mk("leaf-near", q.proof.clone(), root, near(q.hash), idx));
+    cs.push(mk("root-near", q.proof.clone(), near(root), q.hash, idx));
+    if len > 0 { let j = w.rng.below(len as u64) as usize; let mut p = q.proof.clone(); p[j] = near(p[j]); cs.push(mk("proof-near", p, root, q.hash, idx)); }
     let o = &all[w.rng.below(all.len() as u64) as usize];
     if o.hash != q.hash { cs.push(mk("leaf-other-node", q.proof.clone(), root, o.hash, idx)); }
     if len > 0 { cs.push(mk("leaf-is-sibling", q.proof.clone(), root, q.proof[0], idx)); }
@@ -405,6 +414,9 @@ fn verify_trace(out: &mut Out, rng: &mut Rng, hk: Hk, shape: Shape, n: usize, sa
     let lib = match hk { Hk::S => w.e.register(libs::Lib, ()), Hk::K => w.e.register(libk::Lib, ()) };
     let mut leaves: std::vec::Vec<Dg> = (0..n).map(|_| w.rand_digest()).collect();
     if n >= 3 && w.rng.chance(1, 3) { leaves.sort(); if w.rng.chance(1, 2) { leaves.reverse(); } }
+    // trees with a duplicated leaf value (two honest proofs for one value): adjacent for n = 3, 7, ..., apart for n = 5, 9, ...
+    let dup = n >= 3 && n % 2 == 1;
+    if dup { if n % 4 == 3 { leaves[1] = leaves[0]; } else { leaves[n - 1] = leaves[0]; } }
     let mut r2 = w.rng.fork(7);
     let t = build(shape, &leaves, &mut r2);
     // a second tree sharing some leaves
@@ -428,7 +440,7 @@ fn verify_trace(out: &mut Out, rng: &mut Rng, hk: Hk, shape: Shape, n: usize, sa
         if !internals.is_empty() { pick.push(internals[w.rng.below(internals.len() as u64) as usize]); }
         // every leaf at least with its honest proof
         for q in nodes.iter().filter(|q| q.leaf) {
-            let c = VCall { label: "honest".into(), p: q.proof.clone(), r: root, v: q.hash, i: q.index as u32 };
+            let c = VCall { label: if dup { "honest-dup-tree" } else { "honest" }.into(), p: q.proof.clone(), r: root, v: q.hash, i: q.index as u32 };
             emit_verify(&mut w, out, &lib, sorted, &c);
         }
         for k in pick {
@@ -507,10 +519,10 @@ fn chain_trace(out: &mut Out, rng: &mut Rng, hk: Hk, n: usize, right: bool) {
 
 // ------------------------------------------------------------------ distributor traces
 #[derive(Clone)]
-struct LeafData { index: u32, addr: usize, amount: i128, hash: Dg, proof: std::vec::Vec<Dg> }
+struct LeafData { index: u32, addr: usize, amount: i128, hash: Dg, proof: std::vec::Vec<Dg>, misplaced: bool }
 
 /// build a tree of leaf data; with `positional` the index of every leaf is its position at its depth
-fn data_tree(w: &mut W, n: usize, shape: Shape, positional: bool, naddr: usize, amounts: &dyn Fn(&mut Rng) -> i128, idx_base: u32) -> (T, Dg, std::vec::Vec<LeafData>) {
+fn data_tree(w: &mut W, n: usize, shape: Shape, positional: bool, naddr: usize, amounts: &dyn Fn(&mut Rng, usize) -> i128, idx_base: u32) -> (T, Dg, std::vec::Vec<LeafData>) {
     let mut r2 = w.rng.fork(11);
     // shape first (with placeholder leaves numbered 0..n), then positions, then the data
     let ph: std::vec::Vec<Dg> = (0..n).map(|k| { let mut d = [0u8; 32]; d[0] = k as u8; d[1] = 0xEE; d }).collect();
@@ -520,10 +532,16 @@ fn data_tree(w: &mut W, n: usize, shape: Shape, positional: bool, naddr: usize, 
     }
     let mut pos = vec![]; positions(&tshape, 0, 0, &mut pos);
     let mut data: std::vec::Vec<(u32, usize, i128)> = vec![(0, 0, 0); n];
-    for (k, _depth, p) in &pos {
-        let index = if positional { *p as u32 } else if w.rng.chance(1, 8) { idx_base + w.rng.below(n as u64) as u32 } else { idx_base + *k as u32 };
+    let mut posof: std::vec::Vec<u64> = vec![0; n];
+    let mut misplaced: std::vec::Vec<bool> = vec![false; n];
+    for (k, depth, p) in &pos {
+        posof[*k] = *p;
+        // positional trees with >= 3 leaves: the last leaf carries an index that is NOT its position
+        let mis = positional && n >= 3 && *k == n - 1 && *depth >= 1;
+        misplaced[*k] = mis;
+        let index = if positional { if mis { (*p as u32) ^ 1 } else { *p as u32 } } else if *k >= 2 && w.rng.chance(1, 8) { idx_base + w.rng.below(n as u64) as u32 } else { idx_base + *k as u32 };
         let addr = if w.rng.chance(1, 8) { 0 } else { 1 + w.rng.below(naddr as u64) as usize };
-        data[*k] = (index, addr, amounts(&mut w.rng));
+        data[*k] = (index, addr, amounts(&mut w.rng, *k));
     }
     let hashes: std::vec::Vec<Dg> = data.iter().map(|(i, a, m)| w.lh(*i, *a, *m)).collect();
     fn subst(t: &T, hs: &[Dg]) -> T { match t { T::L(d) => T::L(hs[d[0] as usize]), T::N(l, r) => T::N(Box::new(subst(l, hs)), Box::new(subst(r, hs))) } }
@@ -532,23 +550,24 @@ fn data_tree(w: &mut W, n: usize, shape: Shape, positional: bool, naddr: usize, 
     let mut lds = vec![];
     for (k, (i, a, m)) in data.iter().enumerate() {
         // the node of this leaf (first node with that hash that is a leaf and, if positional, at that index)
-        let q = nodes.iter().find(|q| q.leaf && q.hash == hashes[k] && (!positional || q.index as u32 == *i)).unwrap();
-        lds.push(LeafData { index: *i, addr: *a, amount: *m, hash: hashes[k], proof: q.proof.clone() });
+        let q = nodes.iter().find(|q| q.leaf && q.hash == hashes[k] && (!positional || q.index == posof[k])).unwrap();
+        lds.push(LeafData { index: *i, addr: *a, amount: *m, hash: hashes[k], proof: q.proof.clone(), misplaced: misplaced[k] });
     }
     (t, root, lds)
 }
 
-struct Dist { tg: Target, univ: std::vec::Vec<u32>, addrs: std::vec::Vec<usize>, positional: bool }
+struct Dist { tg: Target, univ: std::vec::Vec<u32>, addrs: std::vec::Vec<usize>, positional: bool, mixed: bool }
 
 fn do_claim(w: &mut W, out: &mut Out, d: &Dist, label: &str, index: u32, addr: usize, amount: i128, proof: &[Dg], cur_root: Option<Dg>) -> bool {
     // hash evaluations the model will need
     let lhash = w.lh(index, addr, amount);
-    if cur_root.is_some() { if d.positional { w.sim_idx(lhash, index, proof); } else { w.sim_sorted(lhash, proof); } }
+    let positional = match &d.tg { Target::Air(..) => { w.entry = None; false }, _ => { let dflt = if d.mixed { w.rng.chance(1, 2) } else { d.positional }; w.entry.take().unwrap_or(dflt) } };
+    if cur_root.is_some() { if positional { w.sim_idx(lhash, index, proof); } else { w.sim_sorted(lhash, proof); } }
     let a = w.addrs[addr].clone();
     let pv = w.pv(proof);
     w.e.mock_auths(&[]);
     let (ok, name) = match &d.tg {
-        Target::Lib(id) => match (w.hk, d.positional) {
+        Target::Lib(id) => match (w.hk, positional) {
             (Hk::S, false) => (matches!(libs::LibClient::new(&w.e, id).try_claim_s(&index, &a, &amount, &pv), Ok(Ok(()))), "ClaimS"),
             (Hk::S, true) => (matches!(libs::LibClient::new(&w.e, id).try_claim_i(&index, &a, &amount, &pv), Ok(Ok(()))), "ClaimI"),
             (Hk::K, false) => (matches!(libk::LibClient::new(&w.e, id).try_claim_s(&index, &a, &amount, &pv), Ok(Ok(()))), "ClaimS"),
@@ -557,7 +576,7 @@ fn do_claim(w: &mut W, out: &mut Out, d: &Dist, label: &str, index: u32, addr: u
         Target::Air(id, _) => (matches!(airdrop::AirdropContractClient::new(&w.e, id).try_claim(&index, &a, &amount, &pv), Ok(Ok(()))), "Airdrop"),
     };
     let call = format!("{} {} {} {} {}", name, n(index as u64), n(addr as u64), z(amount), w.dl(proof));
-    let kind = match &d.tg { Target::Air(..) => "airdrop", _ => if d.positional { "claim_idx" } else { "claim" } };
+    let kind = match &d.tg { Target::Air(..) => "airdrop", _ => if positional { "claim_idx" } else { "claim" } };
     out.case(&format!("{}/{}/{}", kind, label, if ok { "ok" } else { "fail" }), &format!("{}{}{:?}{:?}", w.hk.name(), call, proof, cur_root));
     if ok && w.leave_next { w.unread.insert(index); }
     w.leave_next = false;
@@ -601,77 +620,126 @@ fn do_advance(w: &mut W, out: &mut Out, d: &Dist, k: u32) {
 /// corrupted proofs / data, leaves of the other tree, root changes
 const GAPS: [u32; 6] = [20, 100, 17_281, 20_000, 600_000, 4_000_000];
 
+const CORRUPTIONS: [&str; 9] = ["proof-of-other", "proof-altered", "proof-dropped", "proof-extended", "amount-altered",
+                                 "address-altered", "index-altered", "other-tree", "proof-len-32"];
+
+/// one invalid claim derived from the leaf `l` of the current tree; the label says whether the index it
+/// names was still unclaimed (only then does the outcome depend on the proof check)
+fn corrupt_claim(w: &mut W, out: &mut Out, d: &Dist, trees: &[(Dg, std::vec::Vec<LeafData>)], tk: usize, kind: &str, l: &LeafData,
+                 cur_root: Option<Dg>, claimed: &mut std::vec::Vec<u32>) {
+    let lds = &trees[tk].1;
+    let (mut i, mut a, mut m, mut p) = (l.index, l.addr, l.amount, l.proof.clone());
+    match kind {
+        "proof-of-other" => { match lds.iter().find(|o| o.hash != l.hash && o.proof != l.proof) { Some(o) => p = o.proof.clone(), None => return } }
+        "proof-altered" => { if p.is_empty() { return; } let j = w.rng.below(p.len() as u64) as usize; p[j] = if w.rng.chance(1, 2) { w.rand_digest() } else { near(p[j]) }; }
+        "proof-dropped" => { if p.is_empty() { return; } if w.rng.chance(1, 2) { p.pop(); } else { p.remove(0); } }
+        "proof-extended" => { let x = if w.rng.chance(1, 2) { w.rand_digest() } else { l.hash }; if w.rng.chance(1, 2) { p.push(x); } else { p.insert(0, x); } }
+        "amount-altered" => { m = if m == i128::MAX { m - 1 } else { m + 1 }; }
+        "address-altered" => { a = 1 + (a % (w.addrs.len() - 1)); }
+        "index-altered" => { match d.univ.iter().find(|x| **x != l.index && !claimed.contains(x)) { Some(x) => i = *x, None => return } }
+        "other-tree" => {
+            if trees.len() < 2 { return; }
+            let ot = (tk + 1) % trees.len();
+            let x = trees[ot].1[w.rng.below(trees[ot].1.len() as u64) as usize].clone();
+            if lds.iter().any(|y| y.hash == x.hash) { return; }
+            i = x.index; a = x.addr; m = x.amount; p = x.proof.clone();
+        }
+        "proof-len-32" => { p = (0..32).map(|_| w.rand_digest()).collect(); }
+        _ => unreachable!(),
+    }
+    let tag = if claimed.contains(&i) { "claimed" } else { "unclaimed" };
+    if do_claim(w, out, d, &format!("{}-{}", kind, tag), i, a, m, &p, cur_root) { claimed.push(i); }
+}
+
 fn claim_history(w: &mut W, out: &mut Out, d: &Dist, trees: &[(Dg, std::vec::Vec<LeafData>)], mut cur: Option<usize>, steps: usize, root_changes: bool, gap: u32) {
     let mut claimed: std::vec::Vec<u32> = vec![];
-    // directed: a flag (and the root) must survive a long gap during which nobody reads it
     if let Some(k) = cur {
         let lds = &trees[k].1;
-        let l0 = lds[0].clone();
+        let root = Some(trees[k].0);
+        // directed 1: on the fresh distributor (nothing claimed) every kind of invalid claim, so that the
+        // outcome is decided by the proof check and not by the already-claimed guard
+        if lds.len() >= 2 {
+            let v = lds.iter().find(|x| !x.misplaced).unwrap().clone();
+            for kind in CORRUPTIONS { corrupt_claim(w, out, d, trees, k, kind, &v, root, &mut claimed); }
+            // a correctly hashed leaf whose embedded index is not its position (positional trees)
+            if let Some(x) = lds.iter().find(|x| x.misplaced) { let x = x.clone();
+                w.entry = Some(true);
+                if do_claim(w, out, d, "index-not-position", x.index, x.addr, x.amount, &x.proof, root) { claimed.push(x.index); } }
+        }
+        // directed 2: a flag (and the root) must survive a long gap during which nobody reads it
+        let l0 = lds.iter().find(|x| !x.misplaced).unwrap().clone();
         w.leave_next = true;
-        if do_claim(w, out, d, "honest", l0.index, l0.addr, l0.amount, &l0.proof, Some(trees[k].0)) { claimed.push(l0.index); }
+        if d.mixed { w.entry = Some(true); }
+        if do_claim(w, out, d, "honest", l0.index, l0.addr, l0.amount, &l0.proof, root) { claimed.push(l0.index); }
+        if d.mixed {
+            // the same index through the other entry point of the same contract
+            w.entry = Some(false);
+            do_claim(w, out, d, "cross-entry-repeat", l0.index, l0.addr, l0.amount, &l0.proof, root);
+        }
         if root_changes { let i = d.univ[d.univ.len() - 1]; w.leave_next = true; do_set_claimed(w, out, d, i); claimed.push(i); }
         do_advance(w, out, d, gap);
-        do_claim(w, out, d, if claimed.contains(&l0.index) { "repeat-after-gap" } else { "retry-after-gap" }, l0.index, l0.addr, l0.amount, &l0.proof, Some(trees[k].0));
-        if let Some(l1) = lds.iter().find(|x| !claimed.contains(&x.index)) { let l1 = l1.clone();
+        do_claim(w, out, d, if claimed.contains(&l0.index) { "repeat-after-gap" } else { "retry-after-gap" }, l0.index, l0.addr, l0.amount, &l0.proof, root);
+        if let Some(l1) = lds.iter().find(|x| !claimed.contains(&x.index) && !x.misplaced) { let l1 = l1.clone();
             w.leave_next = true;
-            if do_claim(w, out, d, "honest-after-gap", l1.index, l1.addr, l1.amount, &l1.proof, Some(trees[k].0)) { claimed.push(l1.index); }
+            if d.mixed { w.entry = Some(true); }
+            if do_claim(w, out, d, "honest-after-gap", l1.index, l1.addr, l1.amount, &l1.proof, root) { claimed.push(l1.index); }
             let g2 = GAPS[w.rng.below(6) as usize]; do_advance(w, out, d, g2);
         }
+    }
+    // directed 3: root changes - a root that is no tree, the other tree (stale proofs must fail), and back
+    if let (true, Some(k)) = (root_changes, cur) {
+        let lds = &trees[k].1;
+        let v = lds.iter().find(|x| !claimed.contains(&x.index) && !x.misplaced).or(lds.first()).unwrap().clone();
+        let tag = if claimed.contains(&v.index) { "claimed" } else { "unclaimed" };
+        let r = w.rand_digest(); do_set_root(w, out, d, "random", r);
+        do_claim(w, out, d, &format!("root-random-{}", tag), v.index, v.addr, v.amount, &v.proof, Some(r));
+        let ot = (k + 1) % trees.len();
+        do_set_root(w, out, d, "tree", trees[ot].0);
+        if !trees[ot].1.iter().any(|y| y.hash == v.hash) {
+            do_claim(w, out, d, &format!("stale-root-proof-{}", tag), v.index, v.addr, v.amount, &v.proof, Some(trees[ot].0));
+        }
+        do_set_root(w, out, d, "tree", trees[k].0);
     }
     for _ in 0..steps {
         let cur_root = cur.map(|k| trees[k].0);
         let tk = cur.unwrap_or(0);
         let lds = &trees[tk].1;
         let l = lds[w.rng.below(lds.len() as u64) as usize].clone();
+        // for invalid claims prefer a leaf whose index is still unclaimed
+        let fresh: std::vec::Vec<LeafData> = lds.iter().filter(|x| !claimed.contains(&x.index)).cloned().collect();
+        let victim = if !fresh.is_empty() && w.rng.chance(3, 4) { fresh[w.rng.below(fresh.len() as u64) as usize].clone() } else { l.clone() };
         match w.rng.below(100) {
-            0..=29 => { // honest claim of a leaf of the current tree (fresh or repeated)
-                let fresh = !claimed.contains(&l.index);
-                let lab = if cur.is_none() { "no-root" } else if fresh { "honest" } else { "repeat" };
+            0..=24 => { // honest claim of a leaf of the current tree (fresh or repeated)
+                let isfresh = !claimed.contains(&l.index);
+                let lab = if cur.is_none() { "no-root" } else if l.misplaced { "index-not-position" } else if isfresh { "honest" } else { "repeat" };
                 w.leave_next = w.rng.chance(1, 2);
                 if do_claim(w, out, d, lab, l.index, l.addr, l.amount, &l.proof, cur_root) { claimed.push(l.index); }
             }
-            30..=39 => { // prefer an unclaimed leaf
-                let fresh: std::vec::Vec<&LeafData> = lds.iter().filter(|x| !claimed.contains(&x.index)).collect();
-                if let Some(x) = fresh.first() { let x = (*x).clone();
+            25..=32 => { // prefer an unclaimed leaf
+                if let Some(x) = fresh.iter().find(|x| !x.misplaced) { let x = x.clone();
                     let lab = if cur.is_none() { "no-root" } else { "honest" };
                     if do_claim(w, out, d, lab, x.index, x.addr, x.amount, &x.proof, cur_root) { claimed.push(x.index); } }
             }
-            40..=47 => { // repeat of a claimed index (same data)
+            33..=39 => { // repeat of a claimed index (same data)
                 if let Some(x) = lds.iter().find(|x| claimed.contains(&x.index)) { let x = x.clone();
                     do_claim(w, out, d, "repeat", x.index, x.addr, x.amount, &x.proof, cur_root); }
             }
-            48..=55 => { // proof of another leaf
-                let o = lds[w.rng.below(lds.len() as u64) as usize].clone();
-                if o.proof != l.proof || o.hash != l.hash { if do_claim(w, out, d, "proof-of-other", l.index, l.addr, l.amount, &o.proof, cur_root) { claimed.push(l.index); } }
+            40..=79 => { // an invalid claim
+                if cur.is_some() { let kind = CORRUPTIONS[w.rng.below(9) as usize]; corrupt_claim(w, out, d, trees, tk, kind, &victim, cur_root, &mut claimed); }
             }
-            56..=63 => { // one proof element altered / dropped / appended
-                let mut p = l.proof.clone();
-                match w.rng.below(3) { 0 if !p.is_empty() => { let j = w.rng.below(p.len() as u64) as usize; p[j] = w.rand_digest(); }
-                    1 if !p.is_empty() => { p.pop(); } _ => { let x = w.rand_digest(); p.push(x); } }
-                if do_claim(w, out, d, "proof-corrupt", l.index, l.addr, l.amount, &p, cur_root) { claimed.push(l.index); }
-            }
-            64..=73 => { // data altered: amount, address or index
-                let (mut i, mut a, mut m) = (l.index, l.addr, l.amount);
-                match w.rng.below(3) { 0 => m += 1, 1 => a = 1 + (a % (w.addrs.len() - 1)), _ => { i = d.univ[w.rng.below(d.univ.len() as u64) as usize]; } }
-                if (i, a, m) != (l.index, l.addr, l.amount) { if do_claim(w, out, d, "data-altered", i, a, m, &l.proof, cur_root) { claimed.push(i); } }
-            }
-            74..=81 => { // a leaf (and its proof) of the other tree
-                if trees.len() > 1 { let ot = (tk + 1) % trees.len(); let x = trees[ot].1[w.rng.below(trees[ot].1.len() as u64) as usize].clone();
-                    let same = trees[tk].1.iter().any(|y| y.hash == x.hash && y.proof == x.proof);
-                    if !same { if do_claim(w, out, d, "other-tree", x.index, x.addr, x.amount, &x.proof, cur_root) { claimed.push(x.index); } } }
-            }
-            82..=89 => { // root change
+            80..=88 => { // root change
                 if root_changes {
                     match w.rng.below(6) {
                         0 => { let r = w.rand_digest(); do_set_root(w, out, d, "random", r);
                                // a claim against a root that is no tree root
-                               do_claim(w, out, d, "root-random", l.index, l.addr, l.amount, &l.proof, Some(r));
+                               let tag = if claimed.contains(&victim.index) { "claimed" } else { "unclaimed" };
+                               do_claim(w, out, d, &format!("root-random-{}", tag), victim.index, victim.addr, victim.amount, &victim.proof, Some(r));
                                let k = w.rng.below(trees.len() as u64) as usize; do_set_root(w, out, d, "tree", trees[k].0); cur = Some(k); }
                         _ => { let k = w.rng.below(trees.len() as u64) as usize; do_set_root(w, out, d, if Some(k) == cur { "same" } else { "tree" }, trees[k].0); cur = Some(k); }
                     }
                 }
             }
-            90..=93 => { if root_changes { let i = d.univ[w.rng.below(d.univ.len() as u64) as usize]; do_set_claimed(w, out, d, i); claimed.push(i); } }
+            89..=92 => { if root_changes { let i = d.univ[w.rng.below(d.univ.len() as u64) as usize]; w.leave_next = w.rng.chance(1, 2); do_set_claimed(w, out, d, i); claimed.push(i); } }
             _ => {
                 // a gap from the list, one ledger, or up to the next "round" ledger number
                 let k = match w.rng.below(5) {
@@ -684,37 +752,41 @@ fn claim_history(w: &mut W, out: &mut Out, d: &Dist, trees: &[(Dg, std::vec::Vec
         }
         if !w.unread.is_empty() && w.rng.chance(1, 3) { let k = GAPS[w.rng.below(6) as usize]; do_advance(w, out, d, k); }
     }
-    // at the end everything is read once more after a last gap
+    // at the end everything is read once more: at a round ledger number and after a last gap
+    { let m = [4096u32, 17_280, 65_536, 1 << 20][w.rng.below(4) as usize]; let seq = w.e.ledger().sequence(); do_advance(w, out, d, m - seq % m); }
     let k = GAPS[w.rng.below(6) as usize]; do_advance(w, out, d, k);
 }
 
-fn lib_dist_trace(out: &mut Out, rng: &mut Rng, hk: Hk, positional: bool, n: usize, shape: Shape, steps: usize, hostcfg: usize, gap: u32) {
+fn lib_dist_trace(out: &mut Out, rng: &mut Rng, hk: Hk, positional: bool, mixed: bool, n: usize, shape: Shape, steps: usize, hostcfg: usize, gap: u32) {
     let mut w = W::new(hk, rng.fork(n as u64 + 5000), hostcfg);
     let id = match hk { Hk::S => w.e.register(libs::Lib, ()), Hk::K => w.e.register(libk::Lib, ()) };
     w.addrs.push(id.clone());
     let naddr = 3;
     for _ in 0..naddr { let a = Address::generate(&w.e); w.addrs.push(a); }
-    let amounts = |r: &mut Rng| -> i128 { match r.below(6) { 0 => 0, 1 => -(r.below(50) as i128) - 1, 2 => r.i128_any(), _ => 1 + r.below(1000) as i128 } };
+    let amounts = |r: &mut Rng, _k: usize| -> i128 { match r.below(6) { 0 => 0, 1 => -(r.below(50) as i128) - 1, 2 => r.i128_any(), _ => 1 + r.below(1000) as i128 } };
     let (t1, r1, l1) = data_tree(&mut w, n, shape, positional, naddr, &amounts, 0);
     let n2 = 1 + w.rng.below(6) as usize;
     let (t2, r2, l2) = data_tree(&mut w, n2, Shape::Random, positional, naddr, &amounts, 0);
-    if positional { w.itrees = vec![t1, t2]; } else { w.strees = vec![t1, t2]; }
+    if mixed {
+        // both entry points on one contract: the roots are the positional ones; what the sorted
+        // verification can find under such a root is the tree cut at its descending pairs
+        let (c1, _) = w.prune_desc(&t1); let (c2, _) = w.prune_desc(&t2);
+        w.strees = vec![c1, c2]; w.itrees = vec![t1, t2];
+    } else if positional { w.itrees = vec![t1, t2]; } else { w.strees = vec![t1, t2]; }
     let mut univ: std::vec::Vec<u32> = l1.iter().chain(l2.iter()).map(|x| x.index).collect();
     univ.push(univ.iter().max().unwrap() + 1); univ.push(u32::MAX); univ.push(7);
     for k in 0..univ.len().min(3) { let i = univ[k]; univ.push(i ^ (1 << 8)); univ.push(i ^ (1 << 16)); univ.push(i ^ (1 << 31)); }
     univ.sort(); univ.dedup();
-    let d = Dist { tg: Target::Lib(id), univ, addrs: vec![], positional };
+    let d = Dist { tg: Target::Lib(id), univ, addrs: vec![], positional, mixed };
     let obs0 = w.observe(&d.tg, &d.univ, &d.addrs);
     let trees = vec![(r1, l1), (r2, l2)];
     // start: sometimes without a root (claims must fail), then set it
     let mut cur = None;
-    if w.rng.chance(1, 2) {
-        let l = trees[0].1[0].clone();
-        do_claim(&mut w, out, &d, "no-root", l.index, l.addr, l.amount, &l.proof, None);
-    }
+    { let l = trees[0].1[0].clone();
+      do_claim(&mut w, out, &d, "no-root", l.index, l.addr, l.amount, &l.proof, None); }
     do_set_root(&mut w, out, &d, "tree", trees[0].0); cur.replace(0usize);
     claim_history(&mut w, out, &d, &trees, cur, steps, true, gap);
-    let desc = format!("distributor {} {} n={} {:?} hostcfg={} gap={}", hk.name(), if positional { "indexed" } else { "sorted" }, n, shape, hostcfg % 2, gap);
+    let desc = format!("distributor {} {} n={} {:?} hostcfg={} gap={}", hk.name(), if mixed { "mixed-entry-points" } else if positional { "indexed" } else { "sorted" }, n, shape, hostcfg % 2, gap);
     w.finish(out, &desc, &obs0, 0);
 }
 
@@ -732,20 +804,22 @@ fn airdrop_trace(out: &mut Out, rng: &mut Rng, n: usize, shape: Shape, steps: us
     w.addrs.push(cid.clone());
     let naddr = 3;
     for _ in 0..naddr { let a = Address::generate(&w.e); w.addrs.push(a); }
-    let amounts = |r: &mut Rng| -> i128 { match r.below(8) { 0 => 0, 1 => -(r.below(50) as i128) - 1, _ => 1 + r.below(1000) as i128 } };
+    // the first leaf of every tree has the largest amount (it is claimed first)
+    let amounts = |r: &mut Rng, k: usize| -> i128 { if k == 0 { 2000 + r.below(1000) as i128 } else { match r.below(8) { 0 => 0, 1 => -(r.below(50) as i128) - 1, _ => 1 + r.below(1000) as i128 } } };
     let (t1, r1, mut l1) = data_tree(&mut w, n, shape, false, naddr, &amounts, 0);
     let n2 = 1 + w.rng.below(4) as usize;
     let (t2, r2, l2) = data_tree(&mut w, n2, Shape::Random, false, naddr, &amounts, 0);
     w.strees = vec![t1, t2];
     let total: i128 = l1.iter().map(|x| x.amount.max(0)).sum();
-    let funding = if underfunded { total / 2 } else { total + 5 };
+    // under-funded: one token short of the largest leaf, so that the first honest claim fails for lack of funds
+    let funding = if underfunded { l1.iter().map(|x| x.amount).max().unwrap() - 1 } else { total + 5 };
     w.e.register_at(&cid, airdrop::AirdropContract, (w.bn(&r1), tok.clone(), funding, funder.clone()));
     w.e.mock_auths(&[]);
     let mut univ: std::vec::Vec<u32> = l1.iter().chain(l2.iter()).map(|x| x.index).collect();
     univ.push(univ.iter().max().unwrap() + 1); univ.push(u32::MAX);
     for k in 0..univ.len().min(2) { let i = univ[k]; univ.push(i ^ (1 << 8)); univ.push(i ^ (1 << 16)); univ.push(i ^ (1 << 31)); }
     univ.sort(); univ.dedup();
-    let d = Dist { tg: Target::Air(cid, tok), univ, addrs: (0..=naddr).collect(), positional: false };
+    let d = Dist { tg: Target::Air(cid, tok), univ, addrs: (0..=naddr).collect(), positional: false, mixed: false };
     let obs0 = w.observe(&d.tg, &d.univ, &d.addrs);
     l1.sort_by_key(|x| std::cmp::Reverse(x.amount));
     let trees = vec![(r1, l1), (r2, l2)];
@@ -779,7 +853,8 @@ fn main() {
     // deep chains: depth 31 and 32
     for hk in [Hk::S, Hk::K] {
         for (n, right) in [(32usize, true), (32, false), (33, true), (33, false)] {
-            if !thorough && rng.chance(1, 2) && !(n == 32 && right) { continue; }
+            // the right chains of depth 31 and 32 always run (their labels are in must_cover); the left ones half of the time in quick
+            if !thorough && !right && rng.chance(1, 2) { continue; }
             chain_trace(&mut out, &mut rng, hk, n, right);
         }
     }
@@ -788,18 +863,21 @@ fn main() {
     let nd = (if thorough { 60 } else { 5 }) * scale;
     for k in 0..nd {
         for hk in [Hk::S, Hk::K] {
-            for positional in [false, true] {
-                let n = 1 + rng.below(9) as usize;
+            for (positional, mixed) in [(false, false), (true, false), (true, true)] {
+                let n = 2 + rng.below(11) as usize;
                 let sh = SHAPES[rng.below(6) as usize];
                 tno += 1;
-                lib_dist_trace(&mut out, &mut rng, hk, positional, if k == 0 { 1 + (positional as usize) * 3 } else { n }, sh, if thorough { 60 } else { 36 }, tno / 6, GAPS[tno % 6]);
+                // the first round has fixed sizes (a one-leaf sorted tree, four-leaf positional trees)
+                let n = if k == 0 { if positional { 4 } else { 1 } } else if k == 1 { 5 } else { n };
+                if mixed && k >= (nd + 1) / 2 { continue; }
+                lib_dist_trace(&mut out, &mut rng, hk, positional, mixed, n, sh, if thorough { 60 } else { 30 }, tno / 6, GAPS[tno % 6]);
             }
         }
     }
     // ---- the airdrop example
     let na = (if thorough { 80 } else { 8 }) * scale;
     for k in 0..na {
-        let n = 1 + rng.below(8) as usize;
+        let n = if k == 0 { 4 } else { 1 + rng.below(10) as usize };
         let sh = SHAPES[rng.below(6) as usize];
         tno += 1;
         airdrop_trace(&mut out, &mut rng, n, sh, if thorough { 50 } else { 30 }, k % 3 == 1, tno / 6, GAPS[tno % 6]);
